@@ -129,7 +129,7 @@ def show_list(l):
 # ----------------------------------------------------------------------------------------------
 # running the real code
 # ----------------------------------------------------------------------------------------------
-def run_mcmc(n, b, t, seed=0, n_chains=1, idx=0, progress=False):
+def run_mcmc(n, b, t, seed=0, n_chains=1, idx=0, progress=False, np_int=False, prestep=0):
     """real sample() on the counting stub; returns a dict of observables (progress: with progress_bar=True, tqdm output discarded)"""
     import contextlib
     import io
@@ -137,8 +137,14 @@ def run_mcmc(n, b, t, seed=0, n_chains=1, idx=0, progress=False):
     _State, CountingMCMC, _VI, Holder = _stubs()
     trace = []
     model = CountingMCMC(trace)
+    for _ in range(prestep):        # a model that was stepped by hand before (no generator yet): NOT in its initial state
+        model.step()
+    del trace[:]
+    model.draws = []
     holder = Holder(n, trace, 1)
     out = {"error": None}
+    if np_int:                      # class layout/dtype: the integers arrive as np.int64 (e.g. read from an array of settings)
+        seed, n_chains, idx, b, t = (np.int64(seed) if seed < 2 ** 63 else seed), np.int64(n_chains), np.int64(idx), np.int64(b), np.int64(t)
     try:
         if progress:
             with contextlib.redirect_stderr(io.StringIO()):
@@ -272,6 +278,9 @@ def run_calls(case):
         preset = np.random.default_rng(123) if case["preset"] else None
         if model is None or case["fresh_each"]:
             model = _real_setup()["make"](trace, preset) if real else CountingMCMC(trace, rng=preset)
+            for _ in range(int(case.get("prestep", 0))):      # stepped by hand before sample(): not in its initial state
+                model.step()
+            del trace[:]
         else:
             model.trace = trace
         held_before = model.rng
@@ -478,10 +487,30 @@ def run(ctx, res):
         if b >= 1 and t >= 2 and n >= 2:
             res.nontrivial.add(("sched", b, t, n))
         res.count("schedule.n0" if n == 0 else "schedule.n_ge_1")
+        if b % t != 0 and n >= 1:
+            res.count("class.size-boundaries")                       # burn-in not a multiple of thin
+        if b == 0 or n == 0 or t == 1:
+            res.count("class.falsy-boundaries")
         lines.append("schedule %d %d %d" % (n, b, t))
         expect.append("%d %s" % (0 if o["error"] is None else 1, show_list(o["trace"])))
         meta.append(case)
         res.traces_validated += 1
+    # class falsy-boundaries x object state: burn-in 0 (and n_thetas 0 / thin 1) on a model that was stepped by hand before the call;
+    # class layout/dtype: every integer argument as np.int64
+    for b, t, n, pre in itertools.product((0, 1), (1, 2, 3), (0, 1, 3), (1, 4)):
+        for npi in (False, True):
+            case = {"kind": "schedule", "n": n, "b": b, "t": t, "prestep": pre, "np_int": npi}
+            o = run_mcmc(n, b, t, prestep=pre, np_int=npi)
+            res.evaluations += 1
+            oracle_schedule(res, case, o)
+            if b == 0:
+                res.count("class.falsy-boundaries")
+                res.count("falsy.burnin0_prestepped_model")
+            if npi:
+                res.count("class.layout-dtype")
+            lines.append("schedule %d %d %d" % (n, b, t))
+            expect.append("%d %s" % (0 if o["error"] is None else 1, show_list(o["trace"])))
+            meta.append(case)
     # the same schedule with the progress bar switched on (train_model --progress): both loops then run through a live tqdm
     pb, pt, pn = ctx.scale((3, 3, 3), (6, 4, 4), (4, 3, 3))
     for b, t, n in itertools.product(range(pb + 1), range(1, pt + 1), range(pn + 1)):
@@ -529,6 +558,14 @@ def run(ctx, res):
                            "calls": [[s1, 3, 1], [s2, 3, 1], [s1, 3, 1], [s1, 3, 2], [s1, 5, 1]]})
         call_cases.append({"kind": "calls", "model": mdl, "preset": False, "fresh_each": False, "n": 1, "b": 0, "t": 1,
                            "calls": [[s1, 2, 0], [s1, 2, 0], [s2, 4, 3], [s1, 4, 0]]})
+        # (c2) burn-in 0 on models that are NOT in their initial state: stepped by hand before the first call, then reused with other seeds /
+        #      chain indices and with the first triple again (seed 0 and chain 0 included): the states recorded by EVERY call must be those
+        #      after t, 2t, ... steps from a reset model driven by this call's generator
+        for fresh in (False, True):
+            call_cases.append({"kind": "calls", "model": mdl, "preset": True, "fresh_each": fresh, "n": 2, "b": 0, "t": 2, "prestep": 3,
+                               "calls": [[0, 2, 0], [s2, 2, 1], [0, 2, 0], [0, 3, 0]]})
+        call_cases.append({"kind": "calls", "model": mdl, "preset": True, "fresh_each": False, "n": 1, "b": 0, "t": 1, "prestep": 1,
+                           "calls": [[s1, 1, 0], [s1, 1, 0], [0, 1, 0]]})
         # (d) fresh models, triples in several orders with repeats, one process
         for _ in range(ctx.scale(2, 12) if mdl == "stub" else ctx.scale(1, 4)):
             pool = [[crng.choice(sd[:8]), nc, crng.randrange(nc)] for nc in (1, 2, 3, 5) for _r in range(2)]
@@ -542,6 +579,13 @@ def run(ctx, res):
         res.count("calls.%s.%s.%s" % (case["model"], "preset" if case["preset"] else "norng", "fresh" if case["fresh_each"] else "reused"), len(obs_c))
         oracle_calls(res, case, obs_c)
         res.nontrivial.add(("calls", case["model"], case["preset"], case["fresh_each"], tuple(tuple(c) for c in case["calls"])))
+        if not case["fresh_each"]:
+            res.count("class.object-reuse", len(obs_c) - 1)          # later calls on the same model object, other arguments
+        if case["b"] == 0 and (case.get("prestep") or not case["fresh_each"]):
+            res.count("class.falsy-boundaries", len(obs_c))
+            res.count("falsy.burnin0_prestepped_or_reused_model", len(obs_c))
+        if any(c[0] == 0 or c[2] == 0 for c in case["calls"]):
+            res.count("class.falsy-boundaries")                      # seed 0 / chain index 0
         for j, o in enumerate(obs_c):
             # tie: the real call sequence reset -> set_rng -> steps of THIS call against the generated trace, and the spawn key
             lines.append("schedule %d %d %d" % (case["n"], case["b"], case["t"]))
@@ -605,6 +649,27 @@ def run(ctx, res):
         if set(a["draws"]) & set(c["draws"]):
             res.fail("different chains / seeds share generator output", case, [a["draws"][:3], c["draws"][:3]], "different streams",
                      signature="C17:rng-shared-stream")
+    # class cross-process determinism: the same triples in ANOTHER interpreter process with another PYTHONHASHSEED give the same streams
+    import json as _json
+    import os as _os
+    import subprocess as _sp
+    import sys as _sys
+    triples = [(s_, nc, i_) for s_ in seeds[:3] for (nc, i_) in ((1, 0), (3, 2))]
+    code = ("import sys, json; sys.path.insert(0, %r); sys.path.insert(0, %r); from harness import c17; "
+            "print(json.dumps([c17.rng_observe(*t).get('draws') for t in %r]))") % (common.VERIF, _os.path.join(common.REPO, "src"), triples)
+    pr = _sp.run([_sys.executable, "-c", code], env=dict(_os.environ, PYTHONHASHSEED="4242"), stdout=_sp.PIPE, stderr=_sp.PIPE, text=True, timeout=300)
+    try:
+        other = _json.loads(pr.stdout.strip().split("\n")[-1])
+    except Exception:  # noqa
+        other = None
+        res.notes.append("cross-process run failed: " + pr.stderr[-300:])
+    if other is not None:
+        for tr_, dr in zip(triples, other):
+            res.evaluations += 1
+            res.count("class.cross-process")
+            if dr != obs[(tr_[0], tr_[1], tr_[2])].get("draws"):
+                res.fail("same (seed, chain_index) gives different generators", {"kind": "rng", "seed": tr_[0], "n_chains": tr_[1], "idx": tr_[2], "other_process": True},
+                         dr[:3] if dr else dr, "the stream observed in this process", signature="C17:rng-not-deterministic")
     # refusals: tie only (error class)
     for (seed, nc, idx) in [(5, 3, 3), (5, 3, 7), (5, 1, 1), (-1, 3, 0), (-7, 2, 1), (5, 3, -1), (5, 3, -3), (5, 3, -4), (5, 0, 0), (9, 4, 3)]:
         ob = rng_observe(seed, nc, idx)
@@ -675,7 +740,8 @@ def show_trace(tr):
 def replay(ctx, case, res):
     k = case.get("kind")
     if k == "schedule":
-        oracle_schedule(res, case, run_mcmc(case["n"], case["b"], case["t"], progress=bool(case.get("progress"))))
+        oracle_schedule(res, case, run_mcmc(case["n"], case["b"], case["t"], progress=bool(case.get("progress")),
+                                            prestep=int(case.get("prestep", 0)), np_int=bool(case.get("np_int"))))
     elif k == "rng":
         # twice in one process: a stream that depends on earlier calls shows on the second
         oracle_rng_single(res, case, rng_observe(case["seed"], case["n_chains"], case["idx"]))
